@@ -28,3 +28,47 @@ package delay
 //@   ensures has(msg.Metadata, DelayedForKey) && msg.Metadata[DelayedForKey] == durstr(delay.duration) [for-stamped]
 //@   ensures forall k string :: k != DelayedUntilKey && k != DelayedForKey ==> has(msg.Metadata, k) == old(has(msg.Metadata, k)) && msg.Metadata[k] == old(msg.Metadata[k]) [other-keys-untouched]
 //@   modifies map(msg.Metadata)
+
+// ---- delay publisher (C20) ----
+
+//@ spec ctxDelay(m *message.Message) any := ctxval(ctxOf(m), boxed(delayContextKey))
+//@ spec stampedWith(m *message.Message, d Delay) bool := has(m.Metadata, DelayedUntilKey) && m.Metadata[DelayedUntilKey] == timefmt(d.time, "2006-01-02T15:04:05Z07:00") && has(m.Metadata, DelayedForKey) && m.Metadata[DelayedForKey] == durstr(d.duration) && (forall k string :: k != DelayedUntilKey && k != DelayedForKey ==> has(m.Metadata, k) == old(has(m.Metadata, k)) && m.Metadata[k] == old(m.Metadata[k]))
+
+//@ func WithContext
+//@   requires ctx != nil
+//@   nopanic
+//@   pure
+//@   ensures result != nil && ctxval(result, boxed(delayContextKey)) == boxed(delay) [delay-stored-under-the-private-key]
+
+//@ func (*publisher).applyDelay
+//@   ghost label APPLY
+//@   requires p != nil && msg != nil && msg.Metadata != nil
+//@   requires ctxDelay(msg) != nil ==> hasdyntype(ctxDelay(msg), "delay.Delay") [only-WithContext-stores-under-the-private-key]
+//@   callee GEN = p.config.DefaultDelayGenerator
+//@   ensures old(msg.Metadata[DelayedForKey]) != "" ==> result == nil && metaKept(msg) && calls(GEN) == old(calls(GEN)) [metadata-already-present-wins]
+//@   ensures old(msg.Metadata[DelayedForKey]) == "" && ctxDelay(msg) != nil ==> result == nil && calls(GEN) == old(calls(GEN)) && stampedWith(msg, unboxval(ctxDelay(msg), "delay.Delay")) [else-the-delay-from-the-message-context]
+//@   ensures old(msg.Metadata[DelayedForKey]) == "" && ctxDelay(msg) == nil && p.config.DefaultDelayGenerator != nil ==> calls(GEN) == old(calls(GEN)) + 1 && arg(GEN, 0, old(calls(GEN))).Topic == topic && arg(GEN, 0, old(calls(GEN))).Message == msg [else-the-default-generator-is-asked-once]
+//@   ensures old(msg.Metadata[DelayedForKey]) == "" && ctxDelay(msg) == nil && p.config.DefaultDelayGenerator != nil && ret(GEN, 1, old(calls(GEN))) != nil ==> result == ret(GEN, 1, old(calls(GEN))) && metaKept(msg) [generator-error-returned-message-untouched]
+//@   ensures old(msg.Metadata[DelayedForKey]) == "" && ctxDelay(msg) == nil && p.config.DefaultDelayGenerator != nil && ret(GEN, 1, old(calls(GEN))) == nil ==> result == nil && stampedWith(msg, ret(GEN, 0, old(calls(GEN)))) [generator-delay-stamped]
+//@   ensures old(msg.Metadata[DelayedForKey]) == "" && ctxDelay(msg) == nil && p.config.DefaultDelayGenerator == nil ==> metaKept(msg) && calls(GEN) == old(calls(GEN)) && ((result == nil) == p.config.AllowNoDelay) [no-delay-available-is-an-error-unless-allowed]
+//@   panics-ensures calls(GEN) == old(calls(GEN)) + 1 && panicked(GEN, old(calls(GEN)))
+//@   modifies map(msg.Metadata)
+
+//@ func (*publisher).Publish
+//@   requires p != nil && p.pub != nil
+//@   requires forall j int :: 0 <= j && j < len(messages) ==> messages[j] != nil && messages[j].Metadata != nil && (ctxDelay(messages[j]) != nil ==> hasdyntype(ctxDelay(messages[j]), "delay.Delay"))
+//@   callee P = p.pub.Publish
+//@   ensures calls(P) <= old(calls(P)) + 1 [at-most-one-inner-publish]
+//@   ensures result == nil ==> calls(P) == old(calls(P)) + 1 && ncalls(APPLY) == old(ncalls(APPLY)) + len(messages) [every-message-got-its-delay-then-one-call]
+//@   ensures calls(P) == old(calls(P)) + 1 ==> arg(P, 0, old(calls(P))) == topic && arg(P, 1, old(calls(P))) == messages && result == ret(P, 0, old(calls(P))) && ncalls(APPLY) == old(ncalls(APPLY)) + len(messages) && (forall j int :: 0 <= j && j < len(messages) ==> sarg(APPLY, 2, old(ncalls(APPLY)) + j) == messages[j] && sarg(APPLY, 1, old(ncalls(APPLY)) + j) == topic && sret(APPLY, 0, old(ncalls(APPLY)) + j) == nil) [the-whole-batch-forwarded-in-one-call-after-every-delay-was-applied-without-error]
+//@   ensures calls(P) == old(calls(P)) ==> result != nil [nothing-published-only-on-a-delay-error]
+//@   inv loop 1: calls(P) == old(calls(P)) && ncalls(APPLY) == old(ncalls(APPLY)) + rangeindex + 1 && (forall j int :: 0 <= j && j <= rangeindex ==> sarg(APPLY, 2, old(ncalls(APPLY)) + j) == messages[j] && sarg(APPLY, 1, old(ncalls(APPLY)) + j) == topic && sret(APPLY, 0, old(ncalls(APPLY)) + j) == nil) [delays-applied-in-order-so-far]
+//@   inv loop 1: forall j int :: 0 <= j && j < len(messages) ==> messages[j] != nil && messages[j].Metadata != nil && messages[j].ctx == old(messages[j].ctx) [messages-and-their-contexts-stable]
+//@   panics-ensures calls(P) <= old(calls(P)) + 1
+//@   modifies anymap(message.Metadata)
+
+//@ func (*publisher).Close
+//@   requires p != nil && p.pub != nil
+//@   callee PC = p.pub.Close
+//@   ensures calls(PC) == old(calls(PC)) + 1 && result == ret(PC, 0, old(calls(PC))) [close-passed-through-once]
+//@   panics-ensures panicked(PC, old(calls(PC)))
